@@ -287,6 +287,19 @@ func hidden(a int32) int32      { lib.Tr("impl.hidden", 0); return a * 2 }
 func hidden2(a int32) int32     { lib.Tr("impl.hidden2", 0); return a * 3 }
 func blocking(a int32) int32    { return lib.TrY("impl.blocking", a+1) }
 
+// suspends only through helpers of its own package (declared after it) and through a
+// function value: nothing in its own body blocks
+func viaHelper(a int32) int32 { return helper1(a) + helperVar(a) }
+func helper1(a int32) int32   { return helper2(a) + 1 }
+func helper2(a int32) int32   { return lib.TrY("impl.helper2", a) }
+
+var helperVar = func(a int32) int32 { return helper2(a + 100) }
+
+type W struct{ N int32 }
+
+func (w *W) wait(a int32) int32 { return w.inner(a) }
+func (w *W) inner(a int32) int32 { w.N += lib.TrY("impl.(*W).inner", a); return w.N }
+
 // pulled from a package that imports this one (opposite direction of the import graph)
 //
 //go:linkname fromMid prog/mid.exportedToImpl
@@ -294,17 +307,32 @@ func fromMid(a int32) int32
 
 func CallBack(a int32) int32 { return fromMid(a) + 1 }
 
-var Keep = []interface{}{T.val, (*T).ptr, hidden, hidden2, blocking}
+var Keep = []interface{}{T.val, (*T).ptr, hidden, hidden2, blocking, viaHelper, (*W).wait}
 `,
 		"impl/stub.s": "// allows body-less declarations\n",
+		"mid/stub.s": "// allows body-less declarations\n",
 		"mid/mid.go": `package mid
 
 import (
+	_ "unsafe"
+
 	"prog/impl"
 	"prog/lib"
 )
 
 func exportedToImpl(a int32) int32 { lib.Tr("mid.exportedToImpl", 0); return a + 40 }
+
+// an exported function without a body, implemented in another package, called from a third
+//
+//go:linkname Exported prog/impl.hidden2
+func Exported(a int32) int32
+
+// implemented by the main package (the linker calls its symbols main.<name>)
+//
+//go:linkname fromMain main.secret
+func fromMain(a int32) int32
+
+func CallMain(a int32) int32 { return fromMain(a) + 1 }
 
 func Use(a int32) int32 { return impl.CallBack(a) }
 
@@ -336,14 +364,29 @@ func tptr(t *impl.T, a int32) int32
 //go:linkname blocking prog/impl.blocking
 func blocking(a int32) int32
 
+//go:linkname viaHelper prog/impl.viaHelper
+func viaHelper(a int32) int32
+
+//go:linkname wwait prog/impl.(*W).wait
+func wwait(w *impl.W, a int32) int32
+
+func secret(a int32) int32 { lib.Tr("main.secret", 0); return a * 2 }
+
+var keepSecret = secret
+
 var early = hidden(5) // linknames must be resolved before any initialiser runs
+
+var earlyBlocking = viaHelper(7) // an initialiser that suspends inside a linknamed function
 
 func main() {
 	t := impl.T{N: 10}
 	println("L " + lib.Itoa(int(early)) + " " + lib.Itoa(int(hidden(1))) + " " + lib.Itoa(int(other(1))))
 	println("L " + lib.Itoa(int(tval(t, 1))) + " " + lib.Itoa(int(tptr(&t, 5))) + " " + lib.Itoa(int(t.N)))
 	println("L " + lib.Itoa(int(blocking(1))))
+	w := &impl.W{N: 1}
+	println("L " + lib.Itoa(int(earlyBlocking)) + " " + lib.Itoa(int(viaHelper(2))) + " " + lib.Itoa(int(wwait(w, 3))) + " " + lib.Itoa(int(w.N)))
 	println("L " + lib.Itoa(int(impl.CallBack(2))) + " " + lib.Itoa(int(mid.Use(3))))
+	println("L " + lib.Itoa(int(mid.Exported(2))) + " " + lib.Itoa(int(mid.CallMain(5))))
 	f := hidden
 	g := tptr
 	println("L " + lib.Itoa(int(f(3))) + " " + lib.Itoa(int(g(&t, 1))))
